@@ -96,7 +96,7 @@ func (e *Engine) newCtx(key string) *FuncCtx {
 	counts := map[string]int{}
 	ast.Inspect(fd.Body, func(x ast.Node) bool {
 		if ce, ok := x.(*ast.CallExpr); ok {
-			if k := e.calleeKeyOf(ce); k != "" {
+			if k := c.calleeKey(ce); k != "" {
 				counts[k]++
 				c.callOrd[ce] = counts[k]
 			}
@@ -111,7 +111,7 @@ func (e *Engine) newCtx(key string) *FuncCtx {
 				var hits []*ast.CallExpr
 				ast.Inspect(fd.Body, func(x ast.Node) bool {
 					ce, ok := x.(*ast.CallExpr)
-					if !ok || e.calleeKeyOf(ce) != cl.Name {
+					if !ok || c.calleeKey(ce) != cl.Name {
 						return true
 					}
 					for _, a := range ce.Args {
@@ -558,6 +558,22 @@ func (c *FuncCtx) execRangeMap(st *State, x *ast.RangeStmt, coll *Val, li *loopI
 	return c.execRangeMapImpl(st, x, coll, li, inv)
 }
 
+// calleeKey: like Engine.calleeKeyOf, and a call of a func-typed parameter or
+// local f of the function under verification has the key "<function>.f".
+func (c *FuncCtx) calleeKey(ce *ast.CallExpr) string {
+	if k := c.eng.calleeKeyOf(ce); k != "" {
+		return k
+	}
+	if id, ok := ast.Unparen(ce.Fun).(*ast.Ident); ok {
+		if v, ok := c.eng.info.Uses[id].(*types.Var); ok {
+			if _, isSig := under(v.Type()).(*types.Signature); isSig {
+				return c.key + "." + id.Name
+			}
+		}
+	}
+	return ""
+}
+
 // calleeKeyOf: the contract key a call expression resolves to ("" if none).
 func (e *Engine) calleeKeyOf(ce *ast.CallExpr) string {
 	switch f := ast.Unparen(ce.Fun).(type) {
@@ -641,7 +657,7 @@ func (c *FuncCtx) atCall(st *State, x *ast.CallExpr) {
 	if !ok {
 		return
 	}
-	key := c.eng.calleeKeyOf(x)
+	key := c.calleeKey(x)
 	nth := 0
 	for _, cl := range c.contract.Clauses {
 		if cl.Kind == "at" && cl.Name == key && ((!cl.HasLit && cl.Loop == n) || (cl.HasLit && c.atLit[cl] == x)) {
